@@ -2090,3 +2090,55 @@ def run_setbeforeuse(prog, ctx=None):
                        f.qn, norm(show(n, f))[:40], norm(show(bad[0], f))[:50], bad[0].get("l"), bad[1].name, fld))
             res.count("stores")
     return res
+
+
+def run_destindep(prog, ctx=None):
+    """DESTINDEP: a function whose destination pointer is optional (it tests the parameter for null) counts the same with and
+    without it: no store to an integer local that the return value is computed from happens only on paths where the
+    destination is non-null (skipping must advance and count exactly like copying)."""
+    res = Result("DESTINDEP")
+    files = set(ctx.get("files", [])) if ctx else None
+    for f in funcs_of(prog, files):
+        tv = sorted(tested_pointers(f))
+        pids = {p["id"]: p["n"] for p in f.params if f.T(p["t"]).get("k") == "ptr" and not f.T(f.T(p["t"]).get("to")).get("const")
+                and f.T(f.T(p["t"]).get("to")).get("k") in ("void", "int")}
+        cand = [(k, vid) for k, vid in enumerate(tv) if vid in pids]
+        if not cand:
+            continue
+        # integer locals the return value reads
+        rl = set()
+        for b, i, e in f.elements():
+            if e.get("k") == "ret" and e.get("e") is not None:
+                for n in walk(e["e"]):
+                    if n.get("k") == "ref" and n["d"].get("dk") == "local" and f.T(n.get("t")).get("k") == "int":
+                        rl.add(n["d"]["id"])
+        if not rl:
+            continue
+        stores = []
+        for b, i, e in f.elements():
+            for n in walk_own(e):
+                tgt = None
+                if n.get("k") == "bin" and n.get("op", "").endswith("=") and n["op"] not in ("==", "!=", "<=", ">="):
+                    tgt = strip(n["a"], lvalue_to_rvalue=False)
+                elif n.get("k") == "un" and n.get("op") in ("++", "--"):
+                    tgt = strip(n["e"], lvalue_to_rvalue=False)
+                if tgt is not None and tgt.get("k") == "ref" and tgt["d"].get("id") in rl:
+                    stores.append((b, i, n, tgt["d"]["n"]))
+        if not stores:
+            continue
+        an = null_partitioned(prog, f)
+        for k, vid in cand:
+            # the function is entered with the destination null at all?
+            everN = any(isinstance(key, str) and len(key) > k and key[k] == "N" for parts in an.pre_parts.values() for key in parts)
+            if not everN:
+                continue
+            for b, i, n, lname in stores:
+                keys = [key for key in an.pre_parts.get((b.id, i), {}) if isinstance(key, str) and len(key) > k]
+                if not keys:
+                    continue
+                ok = not all(key[k] == "P" for key in keys)
+                res.ob("%s:%s:%s" % (f.qn, pids[vid], norm(show(n, f))[:40]), ok, f, n.get("l", f.line),
+                       "" if ok else "%s: `%s` runs only when `%s` is non-null, but `%s` goes into the return value: without a destination the function counts differently" % (
+                           f.qn, norm(show(n, f))[:40], pids[vid], lname))
+                res.count("stores")
+    return res
